@@ -89,6 +89,8 @@ func unsupportedV(t *rapid.T) sb.V {
 		{K: "nilptr:person"}, {K: "nilptr:int"}, {K: "nilptr:slice"}, {K: "nilptr:map"}, {K: "nilptr:plain"}, {K: "nilptr:string"},
 		// typed nil pointers to types whose interface methods have value receivers
 		{K: "nilptr:stringer"}, {K: "nilptr:number"}, {K: "nilptr:boolean"}, {K: "nilptr:decimal"}, {K: "nilptr:customsafe"},
+		// ... and to types whose interface method is promoted, with a pointer receiver, from a struct embedded by value
+		{K: "nilptr:promoted-stringer"}, {K: "nilptr:promoted-number"}, {K: "nilptr:promoted-boolean"},
 		{K: "nilslice:int"}, {K: "nilmap:str"}, {K: "person", S: "n", N: 3}, {K: "ptr", E: []sb.V{{K: "plain", N: 1}}},
 		{K: "ptr", E: []sb.V{{K: "person", S: "q", N: 1}}},
 	}
